@@ -27,7 +27,10 @@ impl U31x8 {
     pub fn to_simd_vec(data: &[U31]) -> Vec<Self> {
         let mut result = vec![];
         for xs in data.chunks(SIMD_SIZE) {
-            let mut array = [U31::default(); SIMD_SIZE];
+            // A short last chunk is padded with the invalid feature id, which matches nothing.
+            // Padding with zero (the id of the empty feature) would add the cost of the pair of
+            // empty features for every padding lane.
+            let mut array = [U31::MAX; SIMD_SIZE];
             array[..xs.len()].copy_from_slice(xs);
 
             #[cfg(not(target_feature = "avx2"))]
